@@ -115,8 +115,14 @@ def check_path(case, nodes, labels, start, path, acc):
             except Exception:  # noqa: BLE001 - glob's own behaviour is C08's business
                 pass
         acc.tag("paths_used_as_glob_pattern_first")
-    strict = run_get(resolver(pathattr, ic, False), start, path)
-    relaxed = run_get(resolver(pathattr, ic, True), start, path)
+    given = path
+    if case.get("path_as") == "tagged" and len(sep) == 1:  # (with a longer separator str.split itself hands back the subclass object when nothing is split)
+        # the path handed over as an instance of a str SUBCLASS whose str() differs from its characters (a `class Kind(str,
+        # Enum)` member, a decorated string): a path is its characters
+        given = rr.TaggedName(path)
+        acc.tag("paths_given_as_str_subclass_objects")
+    strict = run_get(resolver(pathattr, ic, False), start, given)
+    relaxed = run_get(resolver(pathattr, ic, True), start, given)
     ctx = "get(%s, %r) sep=%r pathattr=%s ignorecase=%s names=%s" % (labels.label(start), path, sep, pathattr, ic, case["names"])
     if case.get("unreprable") and exp[0] != "node":
         # strict mode words its refusal with the node's repr, which this class does not have; relaxed mode has nothing to word
@@ -381,7 +387,7 @@ def random_cases(draw):
             path = path + sep
         paths.append([draw(st.integers(0, size - 1)), path])
     muts = draw(strategies.tree_mutations(rename_values=st.sampled_from(texts)))
-    return {"links": links, "shape": shape, "names": names, "sep": sep, "pathattr": pathattr, "ignorecase": ic, "roundtrip": unique, "flip": draw(st.integers(0, 65535)), "paths": paths, "mutations": muts, "prime_glob": draw(st.booleans()), "foreign_first": draw(st.integers(0, 2)) == 0, "unreprable": draw(st.integers(0, 5)) == 0}
+    return {"links": links, "shape": shape, "names": names, "sep": sep, "pathattr": pathattr, "ignorecase": ic, "roundtrip": unique, "flip": draw(st.integers(0, 65535)), "paths": paths, "mutations": muts, "prime_glob": draw(st.booleans()), "path_as": draw(st.sampled_from([None, None, "tagged"])), "foreign_first": draw(st.integers(0, 2)) == 0, "unreprable": draw(st.integers(0, 5)) == 0}
 
 
 ENUM_COMPS = ["a", "b", "A", "..", ".", "", "zz"]
@@ -415,6 +421,30 @@ def _enum_cases(max_nodes, index, count):
                 yield {"shape": forest.to_list(shape), "names": names, "sep": "/", "pathattr": "name", "ignorecase": ic, "roundtrip": start == 0 and dup != "dots", "flip": 5, "paths": paths}
 
 
+def _sepname_cases():
+    import itertools
+
+    """Names that contain the separator of their own class ('usr/bin' in a '/' tree): such a node cannot be addressed - a
+    path is followed component by component - and it does not disturb its neighbours."""
+    k = 0
+    for sep in ("/", "::", "->"):
+        glued = ["usr" + sep + "bin", "usr", "bin", "a" + sep + "b" + sep + "c", "a", sep + "x", "y" + sep]
+        for shape in ([[], [], []], [[[]], []], [[[], []]], [[[[]]]]):
+            size = shapes.shape_size(forest.to_tuple(shape))
+            parents = shapes.shape_to_parents(forest.to_tuple(shape))
+            for offset in range(len(glued)):
+                names = uniquify(["top"] + [glued[(offset + i) % len(glued)] for i in range(1, size)], parents)
+                comps = ["usr", "bin", "a", "b", "c", "x", "y", "..", "top", ""]
+                paths = []
+                for start in range(size):
+                    for name in names[1:]:
+                        paths += [[start, name], [start, sep + "top" + sep + name], [start, ".." + sep + name], [start, name + sep + "bin"]]
+                    paths += [[start, sep.join(p)] for p in itertools.product(comps[:7], repeat=2)]
+                for ic in (False, True):
+                    k += 1
+                    yield {"shape": shape, "names": names, "sep": sep, "pathattr": "name", "ignorecase": ic, "roundtrip": False, "flip": 0, "paths": paths, "path_as": "tagged" if k % 3 == 0 else None}
+
+
 def plan(tier, seed):
     nshards = 16
     examples = 200 if tier == "quick" else 1500
@@ -422,7 +452,7 @@ def plan(tier, seed):
     tasks = [{"engine": "enum", "max_nodes": max_nodes, "index": i, "count": nshards} for i in range(nshards)]
     tasks += [{"engine": "hyp", "examples": examples, "seed": seed * 1000 + i} for i in range(nshards)]
     tasks += [{"engine": "long", "sep": sep, "ignorecase": ic} for sep, ic in (("/", False), ("::", True))]
-    tasks += [{"engine": "mixed"}]
+    tasks += [{"engine": "mixed"}, {"engine": "sepnames"}]
     if tier == "thorough":
         # coverage-guided supplement: 16 libFuzzer campaigns on the same strategy + oracle (skipped if atheris is unavailable)
         tasks += [{"engine": "fuzz", "runs": 4000, "seed": seed * 100 + i + 1} for i in range(nshards)]
@@ -449,6 +479,8 @@ def run_task(task, acc):
         if exc is not None:
             acc.add_violation(case, exc)
         return
+    if task["engine"] == "sepnames":
+        return acc.run_enum(check_case, _sepname_cases())
     if task["engine"] == "enum":
         acc.run_enum(check_case, _enum_cases(task["max_nodes"], task["index"], task["count"]))
     else:
